@@ -46,6 +46,18 @@ CLAIMED = {
         'Trusted: pathlib model, json round trip, memo decorator transparent, discover_buildout_paths abstract; '
         'full order of the middle segment and the consumers of the path are not yet under contract.',
         'contract-based deductive verification (PyVC) + AST obligations', 'DESIGN.md 6/C20'),
+    'C15': (
+        'Deductive: ExecutionRecursionDetector.push_execution proved against its budget contract under the class '
+        'invariant (level == stack depth, 0 <= executions <= total limit): a granted non-builtins execution respects '
+        'recursion_limit, consumes exactly one unit of a budget that is never exceeded, and respects the per-function '
+        'budgets; pop undoes push; the decorator wrapper restores level and stack on every exit incl. exceptions; '
+        'execution_allowed (context manager) yields False iff the node is already on the stack and restores it; '
+        'guard inventory (decorators / with-guards / budget reset in every Script query) decided on the AST.',
+        'Trusted: wrapped functions are balanced w.r.t. push/pop; limits are read from the current source; that the '
+        'guards cut every cycle of the dynamically dispatched call graph, frame-depth RecursionError and cost growth '
+        'are not decided.',
+        'contract-based deductive verification (PyVC, heap frames on all exits) + AST guard inventory',
+        'DESIGN.md 6/C15'),
 }
 
 NOT_APPLICABLE = {
